@@ -153,9 +153,70 @@ SHAPE_NAMES = sorted(SHAPES)
 SCALES = (1, 2, 4, 8, 16)
 
 
+AUTO_SEPARATORS = (b'\r\n', b'; ', b';', b', ', b',', b' ')
+_AUTO_SHAPES = None
+_SWEEP_SEEDS = None
+SWEEP_MAX_LEN = 1024
+SWEEP_VALUES = {1: (0xff, ), 2: (0xffff, ), 3: (0xffffff, ), 4: (0xffffffff, 0x00ffffff)}
+
+
+def auto_shapes():
+    """Scaling shapes derived from the corpus: a separator-delimited item is repeated k times inside an accepted
+    text seed (the host).  Items are the host's own parts and the parts of every other text seed of the same
+    module (so that e.g. "mx:example.com" is repeated inside a full SPF record although the corpus has it only
+    as a single directive).  [(class path, host hex, separator hex, position, item hex), ...] in a fixed order."""
+    global _AUTO_SHAPES  # pylint: disable=global-statement
+    if _AUTO_SHAPES is None:
+        vocab = {}
+        hosts = []
+        for path in corpus.class_paths():
+            module = path.rsplit('.', 1)[0]
+            for raw in corpus.accepted(path)[:6]:
+                if not wirefault.is_text(raw) or len(raw) < 2 or len(raw) > 400:
+                    continue
+                for sep in AUTO_SEPARATORS:
+                    parts = raw.split(sep)
+                    for part in parts:
+                        if part and len(part) <= 80:
+                            vocab.setdefault((module, sep), [])
+                            if part not in vocab[(module, sep)]:
+                                vocab[(module, sep)].append(part)
+                    if len(parts) >= 2:
+                        hosts.append((path, module, raw, sep))
+        shapes = []
+        seen_hosts = set()
+        for path, module, raw, sep in hosts:
+            if (path, sep) in seen_hosts:
+                continue            # one host per (class, separator): the first (usually richest) seed
+            seen_hosts.add((path, sep))
+            for item in vocab.get((module, sep), [])[:60]:
+                shapes.append((path, raw.hex(), sep.hex(), 0, item.hex()))
+        _AUTO_SHAPES = shapes
+    return _AUTO_SHAPES
+
+
+def build_auto(raw, sep, idx, count, item=None):
+    parts = raw.split(sep)
+    return sep.join(parts[:idx + 1] + [parts[idx] if item is None else item] * count + parts[idx + 1:])
+
+
+def sweep_seeds():
+    global _SWEEP_SEEDS  # pylint: disable=global-statement
+    if _SWEEP_SEEDS is None:
+        out = []
+        for path in corpus.class_paths():
+            for raw in corpus.accepted(path):
+                if 0 < len(raw) <= SWEEP_MAX_LEN and not wirefault.is_text(raw):
+                    out.append((path, raw.hex()))
+        _SWEEP_SEEDS = out
+    return _SWEEP_SEEDS
+
+
 def prepare(tier):  # pylint: disable=unused-argument
     workload.pools()
     stepclock.clock().install()
+    auto_shapes()
+    sweep_seeds()
     return {'phase': 'fuzz'}
 
 
@@ -177,6 +238,15 @@ def _generate(rng, index, tier, extra):
     if phase == 'scale':
         return {'kind': 'scale', 'shape': SHAPE_NAMES[index % len(SHAPE_NAMES)],
                 'mult': 1 if tier == 'quick' else (1, 2, 3)[(index // len(SHAPE_NAMES)) % 3]}
+    if phase == 'autoscale':
+        shapes = auto_shapes()
+        pick = index
+        path, raw_hex, sep_hex, idx, item_hex = shapes[pick % len(shapes)]
+        return {'kind': 'autoscale', 'cls': path, 'hex': raw_hex, 'sep': sep_hex, 'at': idx, 'item': item_hex,
+                'engaged_only': tier == 'quick'}
+    if phase == 'sweep':
+        path, raw_hex = sweep_seeds()[index]
+        return {'kind': 'countsweep', 'cls': path, 'hex': raw_hex}
     paths = corpus.class_paths()
     if phase == 'alloc':
         path = rng.choice(paths)
@@ -224,6 +294,10 @@ def execute(doc):
         _exec_scale(doc, res)
     elif kind == 'alloc':
         _exec_alloc(doc, res)
+    elif kind == 'autoscale':
+        _exec_autoscale(doc, res)
+    elif kind == 'countsweep':
+        _exec_countsweep(doc, res)
     else:
         raise core.HarnessError('unknown schedule kind %r' % kind)
     return res
@@ -340,6 +414,89 @@ def _exec_scale(doc, res):
     res.stats['scale.max_exponent_x100_bucket_%d' % int(max(tail or [0]) * 10)] += 1
 
 
+def _series_verdict(res, label, cls, series, sig_tail):
+    exps = []
+    for (len_a, steps_a, _, _), (len_b, steps_b, _, _) in zip(series, series[1:]):
+        grow = math.log2(max(1, len_b) / max(1, len_a))
+        exps.append(math.log2(max(1, steps_b) / max(1, steps_a)) / grow if grow > 0.2 else 0.0)
+    tail = exps[-2:]
+    if series[-1][1] > 20000 and tail and max(tail) > MAX_EXPONENT:
+        res.violation((PROPERTY, 'superlinear') + tuple(sig_tail),
+                      'growth exponent at the two largest doublings <= %.2f' % MAX_EXPONENT,
+                      '%s (%s): (len, steps) = %s exponents = %s' % (
+                          label, cls.__name__, [(s[0], s[1]) for s in series], ['%.2f' % e for e in exps]))
+    return tail
+
+
+def _exec_autoscale(doc, res):
+    cls = corpus.resolve(doc['cls']) or core.get_class(doc['cls'])
+    raw, sep, idx = bytes.fromhex(doc['hex']), bytes.fromhex(doc['sep']), doc['at']
+    item = bytes.fromhex(doc['item'])
+    parts = raw.split(sep)
+    item_len = len(item) + len(sep)
+    quick = bool(doc.get('engaged_only'))
+    base = max(4, (400 if quick else 700) // item_len)
+    scales = SCALES[:4] if quick else SCALES
+    probe = build_auto(raw, sep, idx, base, item)
+    _measure(cls, 'parse_immutable', probe)
+    if doc.get('engaged_only'):
+        # quick tier: only shapes in which the parser really works through the repeated items (accepted and at
+        # least half consumed, or rejected after noticeable work); the thorough tier measures every shape
+        clock = stepclock.clock()
+        steps, _, status, value = clock.measure(cls.parse_immutable, probe)
+        consumed = value[1] if status == 'ok' and isinstance(value, tuple) else 0
+        if not (consumed * 2 >= len(probe) or (status != 'ok' and steps >= 3 * len(probe))):
+            res.stats['autoscale.skipped_in_quick(parser does not work through the items)'] += 1
+            res.sched_sig = ('autoscale-skip', cls.__name__, doc['sep'], doc['item'][:24])
+            res.nontrivial = False
+            return
+    series = []
+    for scale in scales:
+        data = build_auto(raw, sep, idx, base * scale, item)
+        steps, depth, status = _measure(cls, 'parse_immutable', data)
+        series.append((len(data), steps, depth, status))
+        _judge(res, cls.__name__, 'parse_immutable', len(data), steps, depth, status)
+        res.sim_events += 1
+    tail = _series_verdict(res, 'item %r repeated inside %r' % (item[:30], raw[:40]), cls, series,
+                           (cls.__name__, 'repeat-item', item[:16].decode('ascii', 'replace')))
+    res.note('autoscale', cls.__name__, [s[3] for s in series])
+    res.stats['runs.autoscale'] += 1
+    res.stats['scale.accepted_inputs' if any(s[3] == 'ok' for s in series) else 'scale.rejected_inputs'] += 1
+    res.sched_sig = ('autoscale', cls.__name__, doc['sep'], doc['item'][:24], tuple(s[3] for s in series))
+    res.nontrivial = True
+    res.stats['scale.max_exponent_x100_bucket_%d' % int(max(tail or [0]) * 10)] += 1
+
+
+def _exec_countsweep(doc, res):
+    """Complete single-fault enumeration: every offset of the seed overwritten with a maximal 1/2/3/4-byte
+    integer (a hostile length or count field wherever the format keeps one)."""
+    cls = corpus.resolve(doc['cls']) or core.get_class(doc['cls'])
+    raw = bytes.fromhex(doc['hex'])
+    only = doc.get('only')
+    cases = 0
+    plan = only if only is not None else [
+        (off, size, value) for size, values in sorted(SWEEP_VALUES.items()) for value in values
+        for off in range(0, len(raw) - size + 1)]
+    for off, size, value in plan:
+        data = raw[:off] + value.to_bytes(size, 'big') + raw[off + size:]
+        if data == raw:
+            continue
+        steps, depth, status = _measure(cls, 'parse_immutable', data)
+        before = len(res.violations)
+        _judge(res, cls.__name__, 'parse_immutable', len(data), steps, depth, status)
+        for violation in res.violations[before:]:
+            violation['case'] = [off, size, value]
+        cases += 1
+        if len(res.violations) > 3:
+            break
+    res.stats['fault.lenfield'] += cases
+    res.stats['countsweep.cases'] += cases
+    res.stats['countsweep.seeds'] += 1
+    res.sim_events += cases
+    res.sched_sig = ('countsweep', doc['cls'], doc['hex'][:16], len(raw))
+    res.nontrivial = True
+
+
 def _exec_alloc(doc, res):
     cls = corpus.resolve(doc['cls']) or core.get_class(doc['cls'])
     raw = wire.apply_faults(bytes.fromhex(doc['hex']), doc['faults'], res)
@@ -383,6 +540,14 @@ def shrink(doc, sig, budget):
         cand.update(changes)
         return core.has_sig(me, cand, sig)
 
+    if doc['kind'] == 'countsweep':
+        result = core.guarded_execute(me, doc)
+        for violation in result.violations:
+            if violation['sig'] == sig and 'case' in violation:
+                cand = dict(doc, only=[violation['case']])
+                if core.has_sig(me, cand, sig):
+                    return cand
+        return doc
     if doc['kind'] in ('dgram', 'alloc'):
         doc['faults'] = core.ddmin_list(doc['faults'], lambda c: test_with(faults=c), budget)
     elif doc['kind'] == 'stream':
@@ -392,7 +557,7 @@ def shrink(doc, sig, budget):
     return doc
 
 
-BUDGET = {'quick': (60000, 70.0, 1, 1500), 'thorough': (1500000, 900.0, 3, 40000)}
+BUDGET = {'quick': (40000, 60.0, 1, 1000), 'thorough': (1500000, 900.0, 3, 40000)}
 
 
 def check(tier, seed):
@@ -402,9 +567,12 @@ def check(tier, seed):
     core.determinism_selftest(me, seed, tier, extra, count=40)
     n_runs, wall, scale_rounds, n_alloc = BUDGET[tier]
     scale = core.run_batch(me, seed, tier, len(SHAPE_NAMES) * scale_rounds, 600.0, {'phase': 'scale'}, chunk=1)
+    n_auto = len(auto_shapes())
+    auto = core.run_batch(me, seed, tier, n_auto, 1500.0, {'phase': 'autoscale'}, chunk=2)
+    sweep = core.run_batch(me, seed, tier, len(sweep_seeds()), 900.0, {'phase': 'sweep'}, chunk=4)
     fuzz = core.run_batch(me, seed, tier, n_runs, wall, extra)
     alloc = core.run_batch(me, seed, tier, n_alloc, 120.0, {'phase': 'alloc'})
-    batch = core.merge_batches([scale, fuzz, alloc])
+    batch = core.merge_batches([scale, auto, sweep, fuzz, alloc])
     coverage = core.coverage_from_batch(
         batch, RULE, fault_kinds=wire.FAULT_KINDS,
         probes=('declared_length_over_2^24_with_little_data', 'scaled_input_over_16k', 'input_over_1k', 'depth_over_30'),
@@ -416,6 +584,13 @@ def check(tier, seed):
             'stubbed': [],
         },
         extra={'scaling_shapes': len(SHAPE_NAMES), 'scaling_runs': scale.runs, 'fuzz_runs': fuzz.runs,
+               'corpus_derived_scaling_shapes': {'total': len(auto_shapes()), 'run': auto.runs},
+               'enumerated_fault_set': {
+                   'description': 'every offset of every accepted binary corpus seed <= %d bytes overwritten with the maximal '
+                                  '1/2/3/4-byte integer (and 0x00ffffff): a hostile length or count field' % SWEEP_MAX_LEN,
+                   'seeds_swept': sweep.runs, 'seeds_total': len(sweep_seeds()),
+                   'faulted_inputs': sweep.stats.get('countsweep.cases', 0),
+                   'complete': sweep.runs == len(sweep_seeds()) and not sweep.truncated},
                'alloc_runs': alloc.runs,
                'bounds': {'steps_per_byte': A_STEPS_PER_BYTE, 'steps_offset': B_STEPS, 'depth': D_DEPTH,
                           'max_growth_exponent': MAX_EXPONENT, 'alloc_per_byte': C_ALLOC_PER_BYTE, 'alloc_offset': E_ALLOC}})
